@@ -126,10 +126,13 @@ def gen_case(rng, tier, direction=None, feats=None):
         if rng.random() < 0.3:
             continue
         resources.append([name, rng.choice(CALS)(rng)])
+    dead = None
     if rng.random() < 0.06:
-        resources = [r for r in resources if r[0] != 'b'] + [['b', rng.choice(DEAD)(rng)]]
+        dead = rng.randrange(len(DEAD))
+        resources = [r for r in resources if r[0] != 'b'] + [['b', DEAD[dead](rng)]]
     case = {'dir': d, 'tasks': tasks, 'links': links, 'resources': resources, 'bound': bound, 'clock': clock,
-            'balance': rng.random() < 0.7, 'defaultEst': rng.choice(['0', '0', '8', '3']), 'floats': rng.random() < 0.5}
+            'balance': rng.random() < 0.7, 'defaultEst': rng.choice(['0', '0', '8', '3']), 'floats': rng.random() < 0.5,
+            'dead': dead}
     # keep only the links the graph API accepts (the case stays replayable: rejected links are dropped)
     case['links'] = build(case)[3]
     return case
@@ -162,6 +165,8 @@ def build(case):
             kw['start'] = from_us(t['start'])
         if t['end'] is not None:
             kw['end'] = from_us(t['end'])
+        if i % 3 == 0:
+            kw['tag'] = f'x{i}'
         o = Task(t['id'], f"t{i}", resource=t['res'], **kw)
         if t['member']:
             if t['parent'] is None:
@@ -224,12 +229,13 @@ def run_calc(case, w, objs, clock=None, scheduler=None):
            'resources': [key_of(r.name) for r in sch.resources],
            'wbs': [us_or_none(s.start), us_or_none(s.end)],
            'structure': [[t.id, None if t.parent is None else t.parent.id, [c.id for c in t.children],
-                          sorted(p.id for p in t.predecessors), sorted(p.id for p in t.successors), t.wbs is s,
+                          sorted(set(p.id for p in t.predecessors)), sorted(set(p.id for p in t.successors)), t.wbs is s,
                           sorted((k, repr(v)) for k, v in t.__dict__.items() if not k.startswith('_') and k not in ('start', 'end'))]
                          for t in s.tasks],
            'reserved': [[key_of(r.resource.name), to_us(r.date) // DAY_US, frac_str(sch.resource_usage.reserved(r.resource, r.date))]
                         for r in rows[:6]],
-           'rows_midnight': all(r.date == datetime(r.date.year, r.date.month, r.date.day) for r in rows)}
+           'rows_midnight': all(r.date == datetime(r.date.year, r.date.month, r.date.day) for r in rows),
+           'separate': s is not w and not (set(id(t) for t in s.tasks) & set(id(o) for o in objs))}
     return obs, scheduler
 
 
@@ -259,21 +265,102 @@ def execute(prop, case):
     after = snapshot(w, objs)
     rec['obs'] = obs
     rec['pure'] = before == after
+    if obs['out'] == 'ok':
+        rec['separate'] = obs['separate']
+        mine = set(id(x) for x in objs)
+        want = [[o.id, None if o.parent is None else o.parent.id, [c.id for c in o.children], sorted(set(p.id for p in o.predecessors)),
+                 sorted(set(p.id for p in o.successors if id(p) in mine)), True,
+                 sorted((k, repr(v)) for k, v in o.__dict__.items() if not k.startswith('_') and k not in ('start', 'end'))]
+                for o in w.tasks]
+        rec['structure_same'] = want == obs['structure']
+    if prop == 'C14':
+        rec['dead_expected'] = dead_expected(case)
     if prop == 'C06' and obs['out'] == 'ok':
-        # same scheduler object again, then a fresh one, then (clock <= start) two other clocks
+        # same scheduler object again, then a fresh one, then (clock <= start) other clocks
         obs2, _ = run_calc(case, w, objs, scheduler=sched)
         obs3, _ = run_calc(case, w, objs)
         rec['repeat'] = [strip(obs2) == strip(obs), strip(obs3) == strip(obs)]
         rec['pure'] = rec['pure'] and snapshot(w, objs) == before
-        if max(case['clock']) <= case['bound']:
+        if case['dir'] == 'fwd' and max(case['clock']) <= case['bound']:
             alts = []
-            for shift in (3 * DAY_US + 7 * H, 1):
-                o4, _ = run_calc(case, w, objs, clock=[c - shift for c in case['clock']])
-                alts.append(strip(o4) == strip(obs))
-            o5, _ = run_calc(case, w, objs, clock=[case['bound']])
-            alts.append(strip(o5) == strip(obs))
+            excused = True
+            for alt in ([c - 3 * DAY_US - 7 * H for c in case['clock']], [c - 1 for c in case['clock']], [case['bound']]):
+                o4, _ = run_calc(case, w, objs, clock=alt)
+                if o4['out'] != 'ok':
+                    continue                     # only claimed when both clocks yield a schedule
+                same = strip(o4) == strip(obs)
+                alts.append(same)
+                if not same and clock_hyp(case, case['clock']) and clock_hyp(case, alt):
+                    excused = False
             rec['clock_indep'] = alts
+            rec['clock_hyp'] = not excused       # True = a differing pair lies inside the hypotheses of C06_clock
+    if prop == 'C08' and obs['out'] == 'ok' and not case['balance']:
+        rec['removal_same'] = removal_check(case, obs)
     return rec
+
+
+def clock_hyp(case, clock):
+    """hypotheses of C06_clock for one clock: every reading on a day before the project start day, and before the
+    day of every user-fixed start that has no fixed end (findings S6, S7)"""
+    day = lambda us: us // DAY_US
+    if any(day(c) >= day(case['bound']) for c in clock):
+        return False
+    for t in case['tasks']:
+        if t['member'] and t['start'] is not None and t['end'] is None:
+            if any(day(c) >= day(t['start']) for c in clock):
+                return False
+    return True
+
+
+def dead_expected(case):
+    """a member leaf with work to place sits on a resource that never becomes available"""
+    if case.get('dead') is None:
+        return False
+    if case['dead'] == 3 and case['dir'] == 'bwd':
+        return False
+    parents = set(t['parent'] for t in case['tasks'] if t['parent'] is not None)
+    for i, t in enumerate(case['tasks']):
+        if t['member'] and t['res'] == 'b' and i not in parents and not t['ms']:
+            est = Fraction(t['est']) if t['est'] is not None else Fraction(case['defaultEst'])
+            sp = Fraction(t['spent']) if t['spent'] is not None else 0
+            if case['dir'] == 'fwd' and t['end'] is not None:
+                continue
+            if case['dir'] == 'fwd' and t['start'] is not None and est - sp <= 0:
+                continue
+            return True if (est - sp > 0 or t['start'] is None or case['dir'] == 'bwd') else False
+    return False
+
+
+def removal_check(case, obs):
+    """balancing off: dates of the remaining leaves do not change when unrelated root-level leaves are removed"""
+    tasks = case['tasks']
+    parents = set(t['parent'] for t in tasks if t['parent'] is not None)
+    linked = set(a for a, b in case['links']) | set(b for a, b in case['links'])
+    removable = [i for i, t in enumerate(tasks) if t['member'] and t['parent'] is None and i not in parents and i not in linked]
+    if not removable:
+        return True
+    drop = set(removable[::2])
+    keep = [i for i in range(len(tasks)) if i not in drop]
+    if not any(tasks[i]['member'] for i in keep):
+        return True
+    remap = {old: new for new, old in enumerate(keep)}
+    nt = []
+    for i in keep:
+        t = dict(tasks[i])
+        if t['parent'] is not None:
+            t['parent'] = remap[t['parent']]
+        nt.append(t)
+    c2 = dict(case, tasks=nt, links=[[remap[a], remap[b]] for a, b in case['links']])
+    w2, objs2, _, acc = build(c2)
+    if len(acc) != len(c2['links']):
+        return True
+    obs2, _ = run_calc(c2, w2, objs2)
+    if obs2['out'] != 'ok':
+        return True
+    leaf_ids = set(tasks[i]['id'] for i in keep if tasks[i]['member'] and i not in parents)
+    d1 = {tasks[u]['id']: t[:2] for u, t in zip(obs['order'], obs['tasks']) if tasks[u]['id'] in leaf_ids}
+    d2 = {nt[u]['id']: t[:2] for u, t in zip(obs2['order'], obs2['tasks']) if nt[u]['id'] in leaf_ids}
+    return d1 == d2
 
 
 def strip(obs):
@@ -288,14 +375,25 @@ MON_OF = {
             'c04BwdStartFirstDay'],
     'C07': ['c07StartLeEnd', 'c07Rollup', 'c07Wbs'],
     'C02': ['c02Leaf', 'c02Milestone'],
-    'C14': ['c14Outcome'],
+    'C14': ['c14Outcome', 'c14Diagnosed', 'c14DeadResource'],
+    'C08': ['c08NoIdle', 'c08Encode', 'c08Order', 'c08Removal'],
+    'C09': ['c09Deadline', 'c09Deps', 'c09LatePacked', 'c09Encode'],
+    'C06': ['pure', 'separate', 'structure', 'datesPresent', 'repeatSameObject', 'repeatFresh', 'clockIndep'],
 }
+# hypotheses of the proved `_partial` theorems, per failing clause (a failure outside them is a finding candidate)
 HYP_OF = {
-    'C02': ['noSummaryLinks'],
+    'C02': {'c02Leaf': ['noSummaryLinks', 'outsideLeaves'], 'c02Milestone': ['noSummaryLinks', 'outsideLeaves']},
+    'C08': {'c08NoIdle': ['noSummaryLinks', 'outsideLeaves'], 'c08Encode': ['clockBeforeStartDay'], 'c08Order': [], 'c08Removal': ['noSummaryLinks']},
+    'C09': {'c09Deadline': [], 'c09Deps': ['noSummaryLinks'], 'c09LatePacked': ['noSummaryLinks'], 'c09Encode': ['noSummaryLinks']},
+    'C06': {'clockIndep': ['clockHyp']},
 }
 # domain restrictions of the statements themselves (not findings): cases outside are not judged
+CLAUSE_DOMAIN = {
+    'c08Encode': ['clockLeBound'],     # "when the clock is not later than the project start"
+}
 DOMAIN_OF = {
     'C07': ['consistentFixed'],
+    'C09': ['noFixedDates'],
 }
 
 
@@ -348,13 +446,42 @@ def judge(prop, case, rec, out):
             st = [t[0] for t in obs['tasks'] if t[0] is not None]
             en = [t[1] for t in obs['tasks'] if t[1] is not None]
             mon['c07Wbs'] = obs['wbs'] == [min(st) if st else None, max(en) if en else None]
+    if prop == 'C14':
+        dead = rec.get('dead_expected', False)
+        mon['c14DeadResource'] = (not dead) or obs['out'] == 'runtime'
+    if prop == 'C06':
+        mon = {'pure': rec['pure']}
+        if obs['out'] == 'ok':
+            ids_in = [[t['id'], None if t['parent'] is None else case['tasks'][t['parent']]['id']] for t in case['tasks'] if t['member']]
+            mon['separate'] = rec.get('separate', True)
+            mon['structure'] = rec.get('structure_same', True)
+            mon['datesPresent'] = all(t[0] is not None and t[1] is not None for t in obs['tasks'])
+            mon['repeatSameObject'], mon['repeatFresh'] = rec['repeat']
+            if 'clock_indep' in rec:
+                mon['clockIndep'] = all(rec['clock_indep'])
+    if prop == 'C08' and 'removal_same' in rec:
+        mon['c08Removal'] = rec['removal_same']
     in_domain = all(out['hyp'][h] for h in DOMAIN_OF.get(prop, []))
     if not in_domain:
         mon = {k: True for k in mon}
-    hyp = {h: out['hyp'][h] for h in HYP_OF.get(prop, [])}
+    for cl, hs in CLAUSE_DOMAIN.items():
+        if cl in mon and not all(out['hyp'][h] for h in hs):
+            mon[cl] = True            # the statement does not claim this clause for this input
+    hyps_all = dict(out['hyp'])
+    hyps_all['clockHyp'] = rec.get('clock_hyp', True)
+    hyp = {}
     sig = None
-    if not all(mon.values()) and not all(hyp.values()):
-        sig = '+'.join(h for h, v in hyp.items() if not v) + ':' + '+'.join(sorted(k for k, v in mon.items() if not v))
+    failed = sorted(k for k, v in mon.items() if not v)
+    per = HYP_OF.get(prop, {})
+    for cl in failed:
+        for h in per.get(cl, []):
+            hyp[h] = hyps_all.get(h, True)
+    if failed and hyp and not all(hyp.values()):
+        # every failing clause must be excused by a false hypothesis, otherwise the case is in the proved domain
+        if all(any(not hyps_all.get(h, True) for h in per.get(cl, [])) for cl in failed):
+            sig = '+'.join(sorted(h for h, v in hyp.items() if not v))
+        else:
+            hyp = {}
     n_leaf = sum(1 for t in case['tasks'] if t['member'])
     nontrivial = obs['out'] == 'ok' and len(obs.get('rows', [])) >= 2 and n_leaf >= 2
     if prop == 'C14':
